@@ -743,8 +743,10 @@ def run_nscmd(ctx, n, prop):
             got = (oc, cmd.get("postings")) if oc == "ok" else (oc, cmd.get("class"))
         else:
             e = vm.get("err")
-            want = ("error", NSCMD_CLASS.get(e, "other" if e == "negative_amount" else "machine:%s" % e))
             got = (oc, "other" if str(cmd.get("class", "")).startswith("other:") else cmd.get("class"))
+            # an error of the balance-resolution stage is wrapped by the commander ("could not resolve balances: …"): it is reported
+            # outside the machine-error classes; the same error met while running keeps its class
+            want = ("error", NSCMD_CLASS.get(e, "other" if vm.get("stage") == "balances" else "machine:%s" % e))
         if canon(list(want)) != canon(list(got)):
             st["differs"] += 1
             ctx.violation({"property": prop, "class": "commander-differs-from-machine", "machine": want[0] if want[0] == "ok" else want[1],
